@@ -111,6 +111,18 @@ def h_dict(n: int, k0: int, v0: int, k1: int, v1: int, env: int) -> bool:
     return reach(L.untraced(L.e2e, v, env))
 
 
+def h_snapshot(i: int, where: int, env: int) -> bool:
+    """
+    pre: 0 <= i < 10 and 0 <= where <= 3 and 0 <= env <= 2
+    post: _
+    """
+    # Two-step history: the nested value is observed through the real _check_value, THEN an inner (or the
+    # outer) container of the live object is changed in place, as a later statement of the test would do;
+    # the assertion recorded in step 1 is exported and must hold for a fresh value equal to the state at
+    # observation time, i.e. the recorded expected value is a snapshot, not an alias of the live object.
+    return reach(L.untraced(L.e2e_history, i, where, env))
+
+
 META = {
     "level": "model_checking",
     "claim": "Solver-enumerated end-to-end check on the real code: for every value of the stated tables (13 ints, True/False/None, 8 complex "
@@ -138,6 +150,8 @@ META = {
                             "pytest.raises (no_xfail); quick runs collections/strings with env 0 only",
         "subject": "corpus/C20_sut.py (enums, IntEnum, Flag, nested/private enum classes, classes with public fields and __len__)",
         "observer": "depth=0, max_depth=1 (the values the observer passes for a statement's return value)",
+        "histories": "snapshot: 10 nested values (list of lists, dict of lists, list of dicts, tuple holding a list, dict of sets, depth 3, "
+                     "public list/dict fields of an object) x a later in-place change of the outer / first inner / innermost container",
     },
     "outside": ["values observed in real runs other than the tables", "float_precision other than the default 0.01", "black formatting",
                 "assertions on class-static fields (_check_reference with dotted sources) and on module globals",
@@ -162,6 +176,7 @@ def obligations(tier: str):
         Chx("object", h_object, timeout=T),
         Chx("dict", h_dict, timeout=T, fix={"n": 1, "env": 0}),
         Chx("dict", h_dict, timeout=T, fix={"n": 0, "env": 0}),
+        Chx("snapshot", h_snapshot, timeout=T),
     ]
     if q:
         obs.append(Chx("str", h_str, timeout=T, fix={"nmax": 2, "env": 0}))
